@@ -101,7 +101,7 @@ int main(int argc, char** argv) {
     auto deep = schedgen::deep_alphabet();
     auto broad = schedgen::broad_alphabet();
     const int deep_depth = run.thorough() ? 5 : 4;
-    run.rule = "deep: all histories over " + std::to_string(deep.size()) + " colliding SCHEDULE events (same well/group) up to depth " + std::to_string(deep_depth) + " with <=3 time advances, pruned where the library rejects the input; broad: prelude(3 wells, 3 groups) T a T b " + (run.thorough() ? "T c (all ordered triples over the stateful subset)" : "(all ordered pairs)") + " and a b T (same step) over " + std::to_string(broad.size()) + " snippets covering every SCHEDULE handler keyword; oracle per single-event extension: closed report steps unchanged by canon() and by obs::sched_state(); distinct = distinct canon of the newest state";
+    run.rule = "deep: all histories over " + std::to_string(deep.size()) + " colliding SCHEDULE events (same well/group) up to depth " + std::to_string(deep_depth) + " with <=3 time advances, pruned where the library rejects the input; broad: prelude(3 wells, 3 groups) T a T b " + (run.thorough() ? "T c (all ordered triples over the stateful subset)" : "(all ordered pairs)") + " and a b T (same step), plus every dependent snippet d (valid only after an enabling one e): prelude T e T d, T e d, T e T x T d for every x, over " + std::to_string(broad.size()) + " snippets covering every SCHEDULE handler keyword; oracle per single-event extension: closed report steps unchanged by canon() and by obs::sched_state(); distinct = distinct canon of the newest state";
     run.assumptions = {"event alphabets in engine/schedgen.hpp; values outside them not covered", "canon() normalises UnitSystem caches, DeckItem raw/SI flag and KeywordLocation (representation only, DESIGN 2.5)", "by induction over single-event extensions every (prefix, cut point, tail) inside the bound is covered"};
 
     if (!run.replay_path.empty()) {
@@ -124,6 +124,19 @@ int main(int argc, char** argv) {
         std::vector<int> ok;  // snippets valid after the prelude
         for (int a = 1; a < (int)broad.size(); ++a) { Built b = build({T, a}); if (b.s) ok.push_back(a); else if (run.shard == 0) run.notes["broad_snippets_rejected"] += broad[a].name + " "; }
         if (run.shard == 0) run.count("broad_snippets_valid", ok.size());
+        // dependent snippets: valid only after another one (devices of a multi-segment well need its segments).  Each is
+        // tried after every enabling snippet at an EARLIER step, directly and with every other valid snippet in between
+        // (so that the object it modifies was last touched at an intermediate step).
+        {
+            std::vector<int> dep; for (int a = 1; a < (int)broad.size(); ++a) if (std::find(ok.begin(), ok.end(), a) == ok.end()) dep.push_back(a);
+            for (int d : dep) for (int en : ok) {
+                Built Pen = build({T, en, T});
+                if (!Pen.s || !build({T, en, T, d}).s) continue;
+                if (run.shard == 0) run.count("dependent_snippet_pairs");
+                if (run.mine()) { Built C; check_ext("broad", {T, en, T}, Pen, d, C); Built Pe = build({T, en}); Built C2; if (Pe.s) check_ext("broad", {T, en}, Pe, d, C2); }
+                for (int x : ok) { if (!run.mine()) continue; if (run.timed_out()) break; Built Px = build({T, en, T, x, T}); if (!Px.s) continue; Built C; check_ext("broad", {T, en, T, x, T}, Px, d, C); }
+            }
+        }
         for (int a : ok) {
             Built Pa = build({T, a}), PaT = build({T, a, T});
             if (!PaT.s) continue;
